@@ -956,7 +956,9 @@ def dec2hp(dec):
     # are between 256 and 512 degrees. Precision improves for smaller angles.
     # In calculating the variable 'second' the precision is degraded by a factor of 3600 
     # Therefore 'second' should be rounded to 9 DP and tested for carry.
-    if round(second, 9) == 60:
+    # From 512 degrees a float holds 12 decimals of HP notation, i.e. 8 DP of seconds.
+    places = 9 if abs(dec) < 512 else 8
+    if round(second, places) == 60:
         second = 0
         minute += 1
         if minute == 60:
@@ -967,7 +969,7 @@ def dec2hp(dec):
     # a string will be built to represent a sexagesimal number and then converted to float
     degree = f'{int(degree)}'
     minute = f'{int(minute):02}'
-    second = f'{second:012.9f}'.rstrip('0').replace('.', '')
+    second = f'{second:0{places + 3}.{places}f}'.rstrip('0').replace('.', '')
     
     hp_string = f'{degree}.{minute}{second}'
     hp = float(hp_string)
